@@ -181,7 +181,8 @@ def check_generated_obligations(ctx, files=('Proofs/LockOrder',)):
             f = bad[0]
             if f not in st['reported']:
                 st['reported'].add(f)
-                res['errors'].append((f, st['compiled'][f]))
+                lm = re.match(r'generated obligation no longer provable: lemma (\w+) ', st['compiled'][f])
+                res['errors'].append((f + '.v' + (': lemma ' + lm.group(1) if lm else ''), st['compiled'][f]))
     if rc != 0:
         failed = True
         if 'rc' not in st['reported']:
@@ -224,6 +225,8 @@ def parse_go(path):
             r['ses'][f[1]] = [tuple(int(x) for x in e.split(':')) for e in f[2:] if e]
         elif f[0] == '#orph':
             r['orph'][f[1]] = [int(x) for x in f[2].split(',') if x]
+        elif f[0] == '#orphat':
+            r.setdefault('orphat', {})[f[1]] = [(int(e.split(':')[0]), [int(x) for x in e.split(':')[1].split(',') if x]) for e in f[2:] if e]
         elif f[0] == '#blocked':
             r['blocked'][f[1]] = [int(x) for x in f[2].split(',') if x]
         elif f[0] == '#hang':
